@@ -342,6 +342,9 @@ V("twin-flatten-subroutines-local", "C04", "pyteal/compiler/flatten.py", "      
 # ------------------------------------------------------------------------------- round 3 rules
 V("asset-name-declared-uint64", "C05", "pyteal/ast/asset.py", "            TealType.bytes,\n            immediate_args=[\"AssetName\"],", "            TealType.uint64,\n            immediate_args=[\"AssetName\"],", "R05.8")
 V("asset-reserve-reads-freeze", "C05", "pyteal/ast/asset.py", "            immediate_args=[\"AssetReserve\"],", "            immediate_args=[\"AssetFreeze\"],", "R05.8")
+V("if-chain-else-unchecked", "C05", "pyteal/ast/if_.py", "            require_type(self.elseBranch, self.thenBranch.type_of())\n\n        return", "            pass\n\n        return", "R05.9")
+V("if-chain-only-plain-else-checked", "C05", "pyteal/ast/if_.py", "            require_type(self.elseBranch, self.thenBranch.type_of())\n\n        return", "            if not isinstance(self.elseBranch, If):\n                require_type(self.elseBranch, self.thenBranch.type_of())\n\n        return", "R05.9")
+V("twin-if-chain-local-type", "C05", "pyteal/ast/if_.py", "            require_type(self.elseBranch, self.thenBranch.type_of())\n\n        return", "            then_type = self.thenBranch.type_of()\n            require_type(self.elseBranch, then_type)\n\n        return", None, "quiet")
 V("scratchload-literal-id", "C10", "pyteal/ast/scratch.py", "        op = TealOp(self, Op.load, s)", "        op = TealOp(self, Op.load, s.id if s.isReservedSlot else s)", "R10.7")
 V("int-accepts-subclasses", "C12", "pyteal/ast/int.py", "        if type(value) is not int:", "        if not isinstance(value, int) or isinstance(value, bool):", "R12.5")
 V("twin-int-type-check-form", "C12", "pyteal/ast/int.py", "        if type(value) is not int:", "        if not (type(value) is int):", None, "quiet")
